@@ -174,7 +174,9 @@ func erase(l []int, m int) []int {
 	}
 	return out
 }
-func eqSt(a, b st) bool { return fmt.Sprint(a.held) == fmt.Sprint(b.held) && fmt.Sprint(a.defd) == fmt.Sprint(b.defd) }
+func eqSt(a, b st) bool {
+	return fmt.Sprint(a.held) == fmt.Sprint(b.held) && fmt.Sprint(a.defd) == fmt.Sprint(b.defd)
+}
 
 func check(x *IR, s st) ([]outc, string) {
 	switch x.Op {
@@ -399,16 +401,16 @@ func fieldOf(name string) int {
 }
 
 type fn struct {
-	key   string
-	pkg   string
-	pos   string
-	body  *IR
-	raw   *IR
-	calls []string
-	entry []int
-	acq   map[int]bool
-	root  bool // goroutine body / callback / exported API: entered with nothing held
-	unsup []string
+	key      string
+	pkg      string
+	pos      string
+	body     *IR
+	raw      *IR
+	calls    []string
+	entry    []int
+	acq      map[int]bool
+	root     bool // goroutine body / callback / exported API: entered with nothing held
+	unsup    []string
 	unsupExp []string
 }
 
@@ -420,20 +422,22 @@ var repoDir string
 type tr struct {
 	localFns map[types.Object][]string // local variables of function type -> the library functions assigned to them
 	noSpawn  map[ast.Node]bool
-	writes map[ast.Node]bool     // selector nodes that are written by the enclosing statement
-	fresh  map[types.Object]bool // locals holding an object this function has just allocated
-	ctor   bool
-	pkg    *packages.Package
-	f      *fn
-	nlabel int
-	breakT []int            // innermost breakable (loop/switch/select) labels
-	contT  []int            // innermost loops
-	labels map[string][2]int // go label -> (break label, continue label)
-	pend   string            // label attached to the next statement
-	nlit   int
+	writes   map[ast.Node]bool     // selector nodes that are written by the enclosing statement
+	fresh    map[types.Object]bool // locals holding an object this function has just allocated
+	ctor     bool
+	pkg      *packages.Package
+	f        *fn
+	nlabel   int
+	breakT   []int             // innermost breakable (loop/switch/select) labels
+	contT    []int             // innermost loops
+	labels   map[string][2]int // go label -> (break label, continue label)
+	pend     string            // label attached to the next statement
+	nlit     int
 }
 
-func relPkg(path string) string { return strings.TrimPrefix(strings.TrimPrefix(path, "go.nanomsg.org/mangos/v3"), "/") }
+func relPkg(path string) string {
+	return strings.TrimPrefix(strings.TrimPrefix(path, "go.nanomsg.org/mangos/v3"), "/")
+}
 
 func typeKey(t types.Type) string {
 	for {
